@@ -1,9 +1,9 @@
 /-
   C06 - property theorems, part 6: all rules proved so far together (`ProvedAll` = `Proved` of C06_inv.lean, the
   node-by-node and name rules, + the four type-dependent rules of C06_typed.lean): uniform equivalence,
-  verdict, attribution and invariance under reordering of definitions. (Invariance under `Tr` - selections,
-  arguments, fragment names - is proved for `Proved` in C06_inv.lean; for the type-dependent rules it needs the
-  analogue of `nodes_tr` for `Spec.typedNodes` and is not done.)
+  verdict, attribution and invariance under reordering of definitions - each about the rules run ALONE (the chain:
+  `Props/C06_chain.lean`). (Invariance under `Tr` - selections, arguments, fragment names -: `Props/C06_inv*.lean`, all 26
+  rules in `Props/C06_inv11.lean`.)
 -/
 import PyGqlModel.Props.C06_inv
 import PyGqlModel.Props.C06_typed
